@@ -471,20 +471,20 @@ _CONCLUSIVE = ("completed", "failed", "cancelled")
 
 
 def runlog_raise_pattern(h) -> str:
-    """signature material for a get_runlog() failure: node class and per-instance state sequence (from the first conclusive
-    state on) of the first record whose item generation raises"""
+    """signature material for a get_runlog() failure: '<conclusive state>><next state>' of the first record whose item
+    generation raises (a state recorded after a conclusive one is what the item builder cannot handle), else the node class"""
     ri = h.engine.tracking.runtimeinfo
     for r in ri.records_filtered:
         try:
             ri._get_record_runlog_items(r)
         except Exception:
-            seqs = []
+            pairs = []
             for states in ri._split_states_by_instance_id(r):
                 names = [str(s.state_name.value) for s in states]
                 first = next((i for i, n in enumerate(names) if n in _CONCLUSIVE), None)
                 if first is not None and first < len(names) - 1:
-                    seqs.append(">".join(names[first:]))
-            return "%s:%s" % (r.node_class_name, "|".join(sorted(set(seqs))) or "other")
+                    pairs.append("%s>%s" % (names[first], names[first + 1]))
+            return "|".join(sorted(set(pairs))) or "other:%s" % r.node_class_name
     return "unlocated"
 
 
